@@ -1032,6 +1032,76 @@ fn chk_foreign_rewrite(mode: &str, bytes: &[u8]) -> Result<(), String> {
     }
     Ok(())
 }
+/// a content of `size` bytes held by a reader-backed tile and by a tile added after reopening: the archive is the one
+/// that holds all three tiles in memory (built through the API, the contents are too large for a case line)
+fn chk_big_shared(mode: &str, size: usize) -> Result<(), String> {
+    let asy = mode == "async";
+    let big: Vec<u8> = (0..size).map(|i| (i as u64).wrapping_mul(0x9e37_79b9_7f4a_7c15).to_le_bytes()[(i / 7) % 8]).collect();
+    let none = |st: &mut St| match st {
+        St::S(p) => p.internal_compression = Compression::None,
+        St::A(p) => p.internal_compression = Compression::None,
+    };
+    let mut a = fresh(asy);
+    none(&mut a);
+    add_any(&mut a, 5, big.clone()).map_err(|e| e.to_string())?;
+    add_any(&mut a, 7, vec![1, 2]).map_err(|e| e.to_string())?;
+    add_any(&mut a, 10, big.clone()).map_err(|e| e.to_string())?;
+    let all_in_memory = write_bytes(a)?;
+    let mut b = fresh(asy);
+    none(&mut b);
+    add_any(&mut b, 5, big.clone()).map_err(|e| e.to_string())?;
+    add_any(&mut b, 7, vec![1, 2]).map_err(|e| e.to_string())?;
+    let first = write_bytes(b)?;
+    let mut b = reopen(asy, first, FULL)?;
+    add_any(&mut b, 10, big).map_err(|e| e.to_string())?;
+    let mixed = write_bytes(b)?;
+    if mixed != all_in_memory {
+        return Err(format!("a {size}-byte content held by a reader-backed tile and by a tile added after reopening: {} bytes are written, {} when all tiles are in memory", mixed.len(), all_in_memory.len()));
+    }
+    Ok(())
+}
+/// two archives over one shared stream handle; the first looks a tile up and removes it, the second moves the handle, the
+/// first is saved: the bytes are those of the in-memory history without that tile
+fn chk_shared_rewrite(mode: &str, ops: &str) -> Result<(), String> {
+    use crate::streams::{AShared, Core, Shared};
+    use futures::executor::block_on;
+    let bytes = run_to_bytes(mode, ops)?;
+    let v = spec::parse(&bytes, true).map_err(|e| format!("harness: {e}"))?;
+    let ids: Vec<u64> = spec::all_tiles(&v, 1_000_000)?.keys().copied().collect();
+    if ids.len() < 3 {
+        return Ok(());
+    }
+    let (first, mid) = (ids[0], ids[ids.len() / 2]);
+    let want = run_to_bytes(mode, &format!("{ops};r:{first:x}"))?;
+    let got: Vec<u8> = if mode == "async" {
+        let sh = AShared::new(Core::new(bytes.clone(), 0));
+        let mut a = block_on(pmtiles2::PMTiles::from_async_reader(sh.clone())).map_err(|e| e.to_string())?;
+        sh.0.lock().unwrap().pos = 0;
+        let mut b = block_on(pmtiles2::PMTiles::from_async_reader(sh.clone())).map_err(|e| e.to_string())?;
+        let _ = block_on(a.get_tile_by_id_async(first)).map_err(|e| e.to_string())?;
+        a.remove_tile(first);
+        let _ = block_on(b.get_tile_by_id_async(mid)).map_err(|e| e.to_string())?;
+        let mut out = futures::io::Cursor::new(Vec::new());
+        block_on(a.to_async_writer(&mut out)).map_err(|e| e.to_string())?;
+        out.into_inner()
+    } else {
+        let sh = Shared::new(Core::new(bytes.clone(), 0));
+        let mut a = pmtiles2::PMTiles::from_reader(sh.clone()).map_err(|e| e.to_string())?;
+        sh.0.borrow_mut().pos = 0;
+        let mut b = pmtiles2::PMTiles::from_reader(sh.clone()).map_err(|e| e.to_string())?;
+        let _ = a.get_tile_by_id(first).map_err(|e| e.to_string())?;
+        a.remove_tile(first);
+        let _ = b.get_tile_by_id(mid).map_err(|e| e.to_string())?;
+        let mut out = std::io::Cursor::new(Vec::new());
+        a.to_writer(&mut out).map_err(|e| e.to_string())?;
+        out.into_inner()
+    };
+    if got != want {
+        let pos = got.iter().zip(want.iter()).position(|(p, q)| p != q).unwrap_or(got.len().min(want.len()));
+        return Err(format!("an archive whose stream handle was moved by another archive between a lookup and its save serialises differently from the in-memory history ({} vs {} bytes, first difference at {pos})", got.len(), want.len()));
+    }
+    Ok(())
+}
 /// an archive opened with a range filter and saved: the bytes are those of an in-memory archive holding exactly the
 /// tiles the specification-level reader finds inside the range
 fn chk_partial_rewrite(mode: &str, rg: Range, bytes: &[u8]) -> Result<(), String> {
@@ -2062,6 +2132,22 @@ pub fn gen(prop: &str, rng: &mut Rng, quick: bool, st: &mut Stats) -> Option<Vec
                 c.push(format!("chk_foreign_rewrite {} {}", if k % 2 == 0 { "sync" } else { "async" }, hex_bytes(&f.bytes)));
                 st.bump("foreign_vs_rebuilt");
             }
+            // contents beyond 4 MiB shared by a reader-backed and an in-memory tile; archives whose stream handle is shared
+            for (k, size) in [(4usize << 20) + 1, 9_000_001].iter().enumerate() {
+                if quick && k == 1 {
+                    continue;
+                }
+                c.push(format!("chk_big_shared {} {size:x}", if k % 2 == 0 { "sync" } else { "async" }));
+                st.bump("contents_over_4MiB_backed_and_in_memory");
+            }
+            for k in 0..4usize {
+                let mode = if k % 2 == 0 { "sync" } else { "async" };
+                let l = gen_logical(rng, 6 + 10 * k, false, st);
+                let mut a = settings_ops(&l);
+                a.extend(add_ops(&l, rng, false));
+                c.push(format!("chk_shared_rewrite {mode} {}", a.join(";")));
+                st.bump("shared_stream_handle_then_save");
+            }
             // opened with a range filter (every kind of bound at tile ids and next to them), then saved
             for k in 0..(if quick { 6 } else { 40 }) {
                 let mut o = foreign_opts(rng, k + 5, true);
@@ -2187,6 +2273,11 @@ pub fn run_chk(toks: &[&str]) -> Option<String> {
             let n = unhex_u64(n);
             guard_chk(|| chk_many_contents(mode, n))
         }
+        ["chk_big_shared", mode, size] => {
+            let size = unhex_u64(size) as usize;
+            guard_chk(|| chk_big_shared(mode, size))
+        }
+        ["chk_shared_rewrite", mode, ops] => guard_chk(|| chk_shared_rewrite(mode, ops)),
         ["chk_partial_rewrite", mode, rg, b] => {
             let (rg, b) = (parse_range(rg), unhex_bytes(b));
             guard_chk(|| chk_partial_rewrite(mode, rg, &b))
